@@ -5,6 +5,7 @@ use crate::dd::tau;
 use crate::gen;
 use crate::ind::Ind;
 use crate::rec::Rec;
+use crate::rng::Rng;
 use crate::runner::{Runner, Tier};
 
 pub const INDS: &[&str] = &[
@@ -19,10 +20,85 @@ fn memory(name: &str, n: usize) -> usize {
     }
 }
 
+/// indicators whose input may have any sign
+pub const ANY_SIGN: &[&str] = &["SimpleMovingAverage", "WeightedMovingAverage", "StandardDeviation", "MeanAbsoluteDeviation", "Minimum", "Maximum", "BollingerBands"];
+pub const SIGNS: &[&str] = &["positive", "any-sign", "negated"];
+
+/// a stream under a sign mode: 0 = strictly positive prices, 1 = any sign (gen::stream's shifted / signed-alphabet
+/// variants), 2 = the positive stream negated as a whole (all-negative windows with distinct values)
+fn signed_stream(rng: &mut Rng, regime: &str, len: usize, scale: f64, sign: usize) -> Vec<f64> {
+    let mut v = gen::stream(rng, regime, len, sign != 1, scale);
+    if sign == 2 {
+        for x in v.iter_mut() {
+            *x = -*x;
+        }
+    }
+    v
+}
+
+/// state of one comparison run: magnitudes seen by the long-lived instance over the WHOLE history
+struct Hist {
+    big: f64,
+    allflow: f64, // largest money flow that ever entered MFI's running totals
+    t: usize,
+}
+impl Hist {
+    fn see(&mut self, op: &Op) {
+        match op {
+            Op::Next(x) => self.big = self.big.max(x.abs()),
+            Op::Bar(b) => {
+                self.big = self.big.max(bar_mag(b));
+                self.allflow = self.allflow.max(((b.c + b.h + b.l) / 3.0 * b.v).abs());
+            }
+            _ => {}
+        }
+        self.t += 1;
+    }
+}
+
+/// outputs of the full-history instance (`oa`) vs the fresh suffix-only instance (`of`) at suffix length `j1`
+fn agree(case: &Case, oa: &[f64], of: &[f64], judged: &[Option<super::c03::Judged>], cref: &super::c03::Ref, h: &Hist, j1: usize) -> Option<Failure> {
+    let name = case.ind.as_str();
+    let exact = matches!(name, "Minimum" | "Maximum" | "FastStochastic");
+    let (big, t) = (h.big, h.t);
+    for (q, (x, y)) in oa.iter().zip(of.iter()).enumerate() {
+        let ok = if exact {
+            x == y || (x.is_nan() && y.is_nan())
+        } else {
+            // ratios: × condition number (of the suffix-only reference), gate 1e6
+            let (cond, scale) = match judged.get(q).and_then(|z| z.as_ref()) {
+                Some(jd) => (jd.c, jd.scale),
+                None => {
+                    if matches!(name, "RateOfChange" | "EfficiencyRatio" | "MoneyFlowIndex" | "CommodityChannelIndex") {
+                        continue;
+                    }
+                    (1.0, 1.0)
+                }
+            };
+            // MFI: the totals of the long-lived instance saw every flow of the whole history
+            let cond = if name == "MoneyFlowIndex" && cref.maxflow > 0.0 { cond * (h.allflow / cref.maxflow).max(1.0) } else { cond };
+            if !(cond <= 1e6) {
+                continue;
+            }
+            let is_ratio = matches!(name, "RateOfChange" | "EfficiencyRatio" | "MoneyFlowIndex" | "CommodityChannelIndex");
+            // for ratios the running totals saw `big`: condition relative to the whole history
+            let tol = if is_ratio { tau(t) * cond * scale * (big / cref.big.max(1e-300)).max(1.0) } else if name == "StandardDeviation" || name == "BollingerBands" { (tau(t)).sqrt() * big } else { tau(t) * big };
+            x == y || (x - y).abs() <= tol
+        };
+        if !ok {
+            return fail(case, "remembers-old-input", format!("suffix step {} (t={}): after the full history output #{} = {:e}, a fresh instance fed only the last {} inputs gives {:e}", j1, t, q, x, j1, y));
+        }
+    }
+    None
+}
+
 /// ops = prefix, Mark, common suffix (length >= memory).  The full-history instance is compared
 /// with a fresh instance fed only the suffix, at every step from the point where the suffix
 /// covers the memory.
 pub fn check(case: &Case, rec: &mut Rec) -> Option<Failure> {
+    if case.kind.starts_with("long-prefix") {
+        return check_long(case);
+    }
     let a = match mk(case, rec) {
         Ok(i) => i,
         Err(f) => return Some(f),
@@ -31,68 +107,92 @@ pub fn check(case: &Case, rec: &mut Rec) -> Option<Failure> {
     let n = case.ps[0];
     let mem = memory(name, n);
     let mark = case.ops.iter().position(|o| *o == Op::Mark).unwrap_or(0);
-    let mut big = 0.0f64;
-    let mut t = 0usize;
-    let mut allflow = 0.0f64; // largest money flow that ever entered MFI's running totals
+    let mut h = Hist { big: 0.0, allflow: 0.0, t: 0 };
     for op in &case.ops[..mark] {
-        match op {
-            Op::Next(x) => big = big.max(x.abs()),
-            Op::Bar(b) => {
-                big = big.max(bar_mag(b));
-                allflow = allflow.max(((b.c + b.h + b.l) / 3.0 * b.v).abs());
-            }
-            _ => {}
-        }
-        t += 1;
+        h.see(op);
         feed(rec, a, op)?;
     }
     let mut fresh = Ind::create(&case.ind, &case.ps, &case.ms).unwrap().unwrap();
     let mut cref = super::c03::Ref::new(name, &case.ps);
-    let exact = matches!(name, "Minimum" | "Maximum" | "FastStochastic");
     for (j, op) in case.ops[mark + 1..].iter().enumerate() {
         let (oa, of, judged) = match op {
-            Op::Next(x) => {
-                big = big.max(x.abs());
-                (rec.next(a, *x)?, fresh.next(*x), cref.step(Some(*x), None))
-            }
-            Op::Bar(b) => {
-                big = big.max(bar_mag(b));
-                allflow = allflow.max(((b.c + b.h + b.l) / 3.0 * b.v).abs());
-                (rec.bar(a, b)?, fresh.next_bar(b), cref.step(None, Some(b)))
-            }
+            Op::Next(x) => (rec.next(a, *x)?, fresh.next(*x), cref.step(Some(*x), None)),
+            Op::Bar(b) => (rec.bar(a, b)?, fresh.next_bar(b), cref.step(None, Some(b))),
             _ => continue,
         };
-        t += 1;
+        h.see(op);
         if j + 1 < mem {
             continue;
         }
-        for (q, (x, y)) in oa.iter().zip(of.iter()).enumerate() {
-            let ok = if exact {
-                x == y || (x.is_nan() && y.is_nan())
-            } else {
-                // ratios: × condition number (of the suffix-only reference), gate 1e6
-                let (cond, scale) = match judged.get(q).and_then(|z| z.as_ref()) {
-                    Some(jd) => (jd.c, jd.scale),
-                    None => {
-                        if matches!(name, "RateOfChange" | "EfficiencyRatio" | "MoneyFlowIndex" | "CommodityChannelIndex") {
-                            continue;
-                        }
-                        (1.0, 1.0)
-                    }
-                };
-                // MFI: the totals of the long-lived instance saw every flow of the whole history
-                let cond = if name == "MoneyFlowIndex" && cref.maxflow > 0.0 { cond * (allflow / cref.maxflow).max(1.0) } else { cond };
-                if !(cond <= 1e6) {
-                    continue;
+        if let Some(f) = agree(case, &oa, &of, &judged, &cref, &h, j + 1) {
+            return Some(f);
+        }
+    }
+    None
+}
+
+/// regimes without outliers and without flat stretches: the dynamic range of the history stays within 10^4, so the
+/// tolerance tau(t)·M (M = largest magnitude of the WHOLE history) stays below the differences between neighbouring
+/// inputs — a wrongly remembered, mis-ordered or mis-weighted ordinary input is then observable.  ("trend" is not
+/// calm: compounding up to 1% per step it spans dozens of decades within one chunk of thousands of inputs.)
+pub const CALM: &[&str] = &["walk", "alt", "saw"];
+
+/// Long prefix: regenerated from extra = (seed, prefix length, scale, wild 0/1, sign mode) in chunks of 1..8192
+/// inputs of freshly drawn regimes — wild: any regime of gen::REGIMES and every 7th value ×10^6; otherwise the CALM
+/// regimes — (bars iff the stored suffix consists of bars); ops = Mark, suffix.  No recorder (up to millions of
+/// inputs): both instances are driven directly.
+fn check_long(case: &Case) -> Option<Failure> {
+    let name = case.ind.as_str();
+    let n = case.ps[0];
+    let mem = memory(name, n);
+    let mut rng = Rng::new(case.extra[0] as u64);
+    let plen = case.extra[1] as usize;
+    let scale = case.extra[2];
+    let spiky = case.extra[3] != 0.0;
+    let sign = case.extra[4] as usize % SIGNS.len();
+    let mark = case.ops.iter().position(|o| *o == Op::Mark).unwrap_or(0);
+    let bars = matches!(case.ops.get(mark + 1), Some(Op::Bar(_)));
+    let mut a = Ind::create(&case.ind, &case.ps, &case.ms).unwrap().unwrap();
+    let mut h = Hist { big: 0.0, allflow: 0.0, t: 0 };
+    let mut fed = 0usize;
+    while fed < plen {
+        let chunk = (1 + rng.below(8192)).min(plen - fed);
+        let regime = if spiky { *rng.pick(gen::REGIMES) } else { *rng.pick(CALM) };
+        let mut xs = signed_stream(&mut rng, regime, chunk, scale, sign);
+        if spiky {
+            for (k, x) in xs.iter_mut().enumerate() {
+                if (fed + k) % 7 == 0 {
+                    *x *= 1e6;
                 }
-                let is_ratio = matches!(name, "RateOfChange" | "EfficiencyRatio" | "MoneyFlowIndex" | "CommodityChannelIndex");
-                // for ratios the running totals saw `big`: condition relative to the whole history
-                let tol = if is_ratio { tau(t) * cond * scale * (big / cref.big.max(1e-300)).max(1.0) } else if name == "StandardDeviation" || name == "BollingerBands" { (tau(t)).sqrt() * big } else { tau(t) * big };
-                x == y || (x - y).abs() <= tol
-            };
-            if !ok {
-                return fail(case, "remembers-old-input", format!("suffix step {} (t={}): after the full history output #{} = {:e}, a fresh instance fed only the last {} inputs gives {:e}", j + 1, t, q, x, j + 1, y));
             }
+        }
+        if bars {
+            for b in gen::valid_bars(&mut rng, &xs) {
+                h.see(&Op::Bar(b));
+                a.next_bar(&b);
+            }
+        } else {
+            for x in xs {
+                h.see(&Op::Next(x));
+                a.next(x);
+            }
+        }
+        fed += chunk;
+    }
+    let mut fresh = Ind::create(&case.ind, &case.ps, &case.ms).unwrap().unwrap();
+    let mut cref = super::c03::Ref::new(name, &case.ps);
+    for (j, op) in case.ops[mark + 1..].iter().enumerate() {
+        let (oa, of, judged) = match op {
+            Op::Next(x) => (a.next(*x), fresh.next(*x), cref.step(Some(*x), None)),
+            Op::Bar(b) => (a.next_bar(b), fresh.next_bar(b), cref.step(None, Some(b))),
+            _ => continue,
+        };
+        h.see(op);
+        if j + 1 < mem {
+            continue;
+        }
+        if let Some(f) = agree(case, &oa, &of, &judged, &cref, &h, j + 1) {
+            return Some(Failure { key: f.key, msg: format!("after a prefix of {} inputs regenerated from seed {} (scale {:e}, {}{}): {}", plen, case.extra[0] as u64, scale, SIGNS[sign], if spiky { ", any regime, every 7th ×10^6" } else { ", calm regimes" }, f.msg) });
         }
     }
     None
@@ -134,29 +234,32 @@ pub fn generate(r: &mut Runner) {
             }
         }
     }
-    // stage 1b: signed symbols whose sums cancel exactly ({1, −3, 2}: 1 − 3 + 2 = 0), for the indicators whose input may
-    // have any sign — a running total that happens to be exactly 0 must not be mistaken for an empty window
-    let ssym: [f64; 3] = [1.0, -3.0, 2.0];
-    for name in ["SimpleMovingAverage", "WeightedMovingAverage", "StandardDeviation", "MeanAbsoluteDeviation", "Minimum", "Maximum", "BollingerBands"] {
-        let (np, nm) = crate::ind::arity(name).unwrap();
-        for n in 1..=4usize {
-            let mem = memory(name, n);
-            if mem + 1 > depth {
-                continue;
-            }
-            let ps: Vec<usize> = (0..np).map(|_| n).collect();
-            let ms: Vec<f64> = (0..nm).map(|_| 2.0).collect();
-            for code in 0..3usize.pow(depth as u32) {
-                let mut c = Case::new("C17", "signed-cancelling-exhaustive", name, &ps, &ms);
-                let mut k = code;
-                for j in 0..depth {
-                    if j == depth - (mem + 1) {
-                        c.ops.push(Op::Mark);
-                    }
-                    c.ops.push(Op::Next(ssym[k % 3]));
-                    k /= 3;
+    // stage 1b: signed alphabets, for the indicators whose input may have any sign — {1, −3, 2}: sums cancel exactly
+    // (1 − 3 + 2 = 0; a running total that happens to be exactly 0 must not be mistaken for an empty window);
+    // {−1, −3, −2}: every window all-negative with distinct values (an extreme search or padding seeded with 0);
+    // {−2, 0, 3}: zero between both signs
+    for (kind, ssym) in [("signed-cancelling-exhaustive", [1.0, -3.0, 2.0]), ("all-negative-exhaustive", [-1.0, -3.0, -2.0]), ("signed-zero-exhaustive", [-2.0, 0.0, 3.0])] {
+        for name in ANY_SIGN {
+            let (np, nm) = crate::ind::arity(name).unwrap();
+            for n in 1..=4usize {
+                let mem = memory(name, n);
+                if mem + 1 > depth {
+                    continue;
                 }
-                r.run(c, true);
+                let ps: Vec<usize> = (0..np).map(|_| n).collect();
+                let ms: Vec<f64> = (0..nm).map(|_| 2.0).collect();
+                for code in 0..3usize.pow(depth as u32) {
+                    let mut c = Case::new("C17", kind, name, &ps, &ms);
+                    let mut k = code;
+                    for j in 0..depth {
+                        if j == depth - (mem + 1) {
+                            c.ops.push(Op::Mark);
+                        }
+                        c.ops.push(Op::Next(ssym[k % 3]));
+                        k /= 3;
+                    }
+                    r.run(c, true);
+                }
             }
         }
     }
@@ -174,16 +277,19 @@ pub fn generate(r: &mut Runner) {
         let slen = mem + r.rng.below(2 * n + 5);
         let spike = r.rng.chance(0.5);
         let regime = *r.rng.pick(gen::REGIMES);
-        let mut pre = gen::stream(&mut r.rng, regime, plen, true, scale);
+        let bars = !crate::ind::has_next_name(name) || (name == "FastStochastic" && r.rng.chance(0.5));
+        // sign mode (scalar streams of the indicators that accept any sign): a third each positive / any sign / negated
+        let sign = if !bars && ANY_SIGN.contains(&name) { r.rng.below(3) } else { 0 };
+        let mut pre = signed_stream(&mut r.rng, regime, plen, scale, sign);
         if spike {
             for x in pre.iter_mut().step_by(7) {
                 *x *= 1e6;
             }
         }
         let regime2 = *r.rng.pick(gen::REGIMES);
-        let suf = gen::stream(&mut r.rng, regime2, slen, true, scale);
-        let bars = !crate::ind::has_next_name(name) || (name == "FastStochastic" && r.rng.chance(0.5));
-        let mut c = Case::new("C17", if spike { "spiky-prefix" } else { "prefix" }, name, &ps, &ms);
+        let suf = signed_stream(&mut r.rng, regime2, slen, scale, sign);
+        r.count(&format!("sign:{}", SIGNS[sign]));
+        let mut c = Case::new("C17", &format!("{}{}", if spike { "spiky-prefix" } else { "prefix" }, if sign > 0 { format!("-{}", SIGNS[sign]) } else { String::new() }), name, &ps, &ms);
         if bars {
             c.ops = gen::valid_bars(&mut r.rng, &pre).into_iter().map(Op::Bar).collect();
             c.ops.push(Op::Mark);
@@ -195,6 +301,50 @@ pub fn generate(r: &mut Runner) {
         }
         r.run(c, plen > 0);
     }
+    // stage 3: long prefixes on ONE instance (hidden update counters), placed around every round count N: variant A —
+    // N + d inputs (d <= memory+2) before the suffix, i.e. the N-th update lies inside the prefix (an effect that
+    // persists is seen by every compared suffix step); variant B — N − d inputs (2 <= d <= memory+2) before a suffix of
+    // more than memory + d inputs, i.e. the N-th update happens INSIDE the common suffix and the steps right after it are
+    // compared (an effect that heals after a window length is seen too)
+    r.log_every = u64::MAX; // prefixes are regenerated from a seed, too long for the op log
+    let limit = if r.tier == Tier::Quick { 1usize << 17 } else { 1usize << 22 };
+    // suffixes in which neighbouring window elements differ (a flat window hides a mis-ordered or stale element)
+    let lively: &[&str] = &["walk", "alt", "spike", "saw", "alphabet", "mixed", "trend"];
+    for name in INDS {
+        let (np, nm) = crate::ind::arity(name).unwrap();
+        for big_n in super::c13::round_counts(limit) {
+            for variant in 0..2usize {
+                // three quarters of the periods divide no round count (coprime to 10): the ring cursor is not at slot 0 there
+                let n = if r.rng.chance(0.75) { super::c13::odd_period(&mut r.rng, 3, 128) } else { gen::period(&mut r.rng, 128) };
+                let ps: Vec<usize> = (0..np).map(|_| n).collect();
+                let ms: Vec<f64> = (0..nm).map(|_| 2.0).collect();
+                let mem = memory(name, n);
+                let (plen, slen) = if variant == 0 {
+                    (big_n + r.rng.below(mem + 3), mem + r.rng.below(2 * n + 5))
+                } else {
+                    let d = 2 + r.rng.below(mem + 1);
+                    (big_n - d.min(big_n), mem + d + 1 + r.rng.below(2 * n + 5))
+                };
+                let scale = *r.rng.pick(&[1.0, 100.0, 1e4]);
+                let bars = !crate::ind::has_next_name(name) || (*name == "FastStochastic" && r.rng.chance(0.5));
+                let sign = if !bars && ANY_SIGN.contains(&name) { r.rng.below(3) } else { 0 };
+                // variant A: calm history; variant B: half of them wild (any regime, every 7th prefix value ×10^6)
+                let spiky = variant == 1 && r.rng.chance(0.5);
+                let regime2 = if spiky { *r.rng.pick(lively) } else { *r.rng.pick(CALM) };
+                let suf = signed_stream(&mut r.rng, regime2, slen, scale, sign);
+                let mut c = Case::new("C17", if variant == 0 { "long-prefix-past-round-count" } else { "long-prefix-round-count-in-suffix" }, name, &ps, &ms);
+                c.extra = vec![(r.rng.u64() % (1 << 50)) as f64, plen as f64, scale, if spiky { 1.0 } else { 0.0 }, sign as f64];
+                c.ops.push(Op::Mark);
+                if bars {
+                    c.ops.extend(gen::valid_bars(&mut r.rng, &suf).into_iter().map(Op::Bar));
+                } else {
+                    c.ops.extend(suf.into_iter().map(Op::Next));
+                }
+                r.steps += plen as u64;
+                r.run(c, true);
+            }
+        }
+    }
 }
 
-pub const RULE: &str = "stage 1 (exact ties): periods 1..=4, every sequence of length 7 (quick) / 9 (thorough) over three symbols, split into an arbitrary prefix and a suffix of memory+1 inputs; stage 1b: the same over the signed symbols {1,-3,2} (sums cancel exactly) for SMA, WMA, SD, MAD, Min, Max, BB; stage 2: 12 windowed indicators × periods 1..=4 (a third) and sampled to 128 × an arbitrary prefix (0..300 / 0..2000 inputs, half of them with every 7th value ×10^6) followed by a common suffix of at least n (n+1 for ROC, ER, MFI) inputs; the instance that saw the whole history is compared with a fresh instance fed only the suffix at every suffix length from n (n+1) on: exactly for Minimum, Maximum, FastStochastic; tau(t)·M for the accumulating ones (sqrt(tau)·M on the SD scale), × the condition number of the suffix reference for ratios (gate 1e6). Non-trivial = non-empty prefix.";
+pub const RULE: &str = "stage 1 (exact ties): periods 1..=4, every sequence of length 7 (quick) / 9 (thorough) over three symbols, split into an arbitrary prefix and a suffix of memory+1 inputs; stage 1b: the same over the signed alphabets {1,-3,2} (sums cancel exactly), {-1,-3,-2} (every window all-negative with distinct values) and {-2,0,3} for SMA, WMA, SD, MAD, Min, Max, BB; stage 2: 12 windowed indicators × periods 1..=4 (a third) and sampled to 128 × an arbitrary prefix (0..300 / 0..2000 inputs, half of them with every 7th value ×10^6) followed by a common suffix of at least n (n+1 for ROC, ER, MFI) inputs; for the 7 indicators that accept any sign the scalar streams are, a third each, positive, of any sign (shifted around zero / signed alphabet) and negated as a whole (all-negative windows); stage 3 (hidden update counters): every indicator × every round count N (powers of two 2^10..2^17 quick / ..2^22 thorough, and 10^3, 5·10^3, 10^4, … up to that limit) × two placements of a long prefix regenerated from a stored seed in chunks of 1..8192 inputs of freshly drawn regimes — A: N+d inputs (d <= memory+2) before the suffix (the N-th update lies in the prefix), B: N−d inputs (2 <= d <= memory+2) before a suffix longer than memory+d (the N-th update happens inside the common suffix and the steps right after it are compared) — with periods to 128, three quarters of them coprime to 10 (dividing no round count, so the ring cursor is not at slot 0 there; the rest includes powers of two), sign modes as in stage 2; all A and half of the B histories are calm (prefix chunks and suffix from walk/alt/saw only: no outliers and no flat stretches, so that tau(t)·M stays below the differences between neighbouring inputs and an ordinary input remembered, mis-ordered or mis-weighted is observable), the other B histories are wild (any regime per chunk, every 7th prefix value ×10^6, non-flat suffix). In all stages the instance that saw the whole history is compared with a fresh instance fed only the suffix at every suffix length from n (n+1) on: exactly for Minimum, Maximum, FastStochastic; tau(t)·M for the accumulating ones (sqrt(tau)·M on the SD scale), × the condition number of the suffix reference for ratios (gate 1e6). Non-trivial = non-empty prefix.";
